@@ -9,6 +9,8 @@
 package downloader
 
 import (
+	"fmt"
+	"math"
 	"math/big"
 	"sort"
 	"sync"
@@ -16,6 +18,7 @@ import (
 
 	"github.com/youchainhq/go-youchain/common"
 	"github.com/youchainhq/go-youchain/core/types"
+	"github.com/youchainhq/go-youchain/logging"
 )
 
 // VerifQueue drives one real queue with a set of fake peer connections (id + lacking set only).
@@ -535,7 +538,14 @@ func VerifRunFetchLoop(cfg VerifLoopConfig) *VerifLoopResult {
 				}
 			}()
 		}
-		go func() { done <- d.fetchBodies() }()
+		go func() {
+			defer func() {
+				if r := recover(); r != nil {
+					done <- fmt.Errorf("panic in fetchBodies: %v", r)
+				}
+			}()
+			done <- d.fetchBodies()
+		}()
 	} else {
 		// the callbacks of fetchBodies, verbatim, each wrapped with a recorder
 		var (
@@ -604,6 +614,11 @@ func VerifRunFetchLoop(cfg VerifLoopConfig) *VerifLoopResult {
 			}
 		)
 		go func() {
+			defer func() {
+				if r := recover(); r != nil {
+					done <- fmt.Errorf("panic in fetchParts: %v", r)
+				}
+			}()
 			done <- d.fetchParts(d.bodyCh, deliver, d.bodyWakeCh, expire,
 				pending, inFlight, throttle, reserve,
 				nil, fetch, d.queue.CancelBodies, capacity, idle, setIdle, "bodies")
@@ -640,5 +655,154 @@ func VerifRunFetchLoop(cfg VerifLoopConfig) *VerifLoopResult {
 		res.Asked[fp.cfg.ID] = fp.asked
 		fp.lock.Unlock()
 	}
+	return res
+}
+
+// ---------------------------------------------------------------------------------------------------
+// Peer capacities: a script of PeerSet/peerConnection calls on REAL objects, with every peer's four
+// capacities and throughputs read back after each step.
+
+type VerifCapOp struct {
+	Op        string // register | unregister | reset | setidle
+	Peer      string
+	Kind      string // setidle: header | body | receipt | state
+	Delivered int
+}
+
+type VerifCapRow struct {
+	Step                           int
+	Peer                           string
+	BlockCap, ReceiptCap, StateCap int
+	Finite                         bool // all four throughputs are finite numbers
+}
+
+func VerifCapacityScript(ops []VerifCapOp, rttMs int) []VerifCapRow {
+	ps := newPeerSet()
+	rtt := time.Duration(rttMs) * time.Millisecond
+	var rows []VerifCapRow
+	for i, op := range ops {
+		switch op.Op {
+		case "register":
+			ps.Register(newPeerConnection(op.Peer, nil, logging.New("peer", op.Peer)))
+		case "unregister":
+			ps.Unregister(op.Peer)
+		case "reset":
+			ps.Reset()
+		case "setidle":
+			if p := ps.Peer(op.Peer); p != nil {
+				switch op.Kind {
+				case "header":
+					p.headerStarted = time.Now().Add(-10 * time.Millisecond)
+					p.SetHeadersIdle(op.Delivered)
+				case "body":
+					p.blockStarted = time.Now().Add(-10 * time.Millisecond)
+					p.SetBodiesIdle(op.Delivered)
+				case "receipt":
+					p.receiptStarted = time.Now().Add(-10 * time.Millisecond)
+					p.SetReceiptsIdle(op.Delivered)
+				case "state":
+					p.stateStarted = time.Now().Add(-10 * time.Millisecond)
+					p.SetNodeDataIdle(op.Delivered)
+				}
+			}
+		}
+		for _, p := range ps.AllPeers() {
+			p.lock.RLock()
+			fin := true
+			for _, t := range []float64{p.headerThroughput, p.blockThroughput, p.receiptThroughput, p.stateThroughput} {
+				if math.IsNaN(t) || math.IsInf(t, 0) {
+					fin = false
+				}
+			}
+			p.lock.RUnlock()
+			rows = append(rows, VerifCapRow{Step: i, Peer: p.id, BlockCap: p.BlockCapacity(rtt),
+				ReceiptCap: p.ReceiptCapacity(rtt), StateCap: p.NodeDataCapacity(rtt), Finite: fin})
+		}
+	}
+	return rows
+}
+
+// ---------------------------------------------------------------------------------------------------
+// Skeleton fill: ScheduleSkeleton + ReserveHeaders + DeliverHeaders on a REAL queue with a gated consumer of
+// headerProcCh (single-threaded and deterministic: the consumer reads only when the script says so).
+
+type VerifSkeletonConfig struct {
+	From      uint64
+	Headers   []*types.Header // honest, contiguous, first has number From
+	RangeEnds []int           // indices (into Headers) of the skeleton headers, ascending, last = len(Headers)-1
+	Order     []int           // order in which the ranges are answered (a permutation of 0..len(RangeEnds)-1)
+	BadFirst  []bool          // per range: a first peer answers one header short (rejected), a second peer answers honestly
+	ReadAfter []int           // per delivery step: how many batches the header processor takes from headerProcCh afterwards
+}
+
+type VerifSkeletonResult struct {
+	Batches  [][]*types.Header // what the header processor received on headerProcCh, in order
+	Filled   []*types.Header   // RetrieveHeaders(): the assembled chain ...
+	Proced   int               // ... and how many of them count as already forwarded
+	Accepted []int
+	Errs     []string
+	Panic    string
+}
+
+func VerifSkeletonFill(cfg VerifSkeletonConfig) (res *VerifSkeletonResult) {
+	res = &VerifSkeletonResult{}
+	defer func() {
+		if r := recover(); r != nil {
+			res.Panic = fmt.Sprint(r)
+		}
+	}()
+	q := newQueue()
+	var skeleton []*SkeletonHeader
+	for _, e := range cfg.RangeEnds {
+		skeleton = append(skeleton, &SkeletonHeader{Number: cfg.Headers[e].Number.Uint64(), Hash: cfg.Headers[e].Hash()})
+	}
+	q.ScheduleSkeleton(cfg.From, skeleton)
+	ch := make(chan []*types.Header, 1) // Downloader.headerProcCh has one slot
+	take := func(n int) {
+		for k := 0; k < n; k++ {
+			select {
+			case b := <-ch:
+				res.Batches = append(res.Batches, b)
+			default:
+			}
+		}
+	}
+	starts := make([]int, len(cfg.RangeEnds))
+	for i := range cfg.RangeEnds {
+		if i > 0 {
+			starts[i] = cfg.RangeEnds[i-1] + 1
+		}
+	}
+	// every range is reserved by its own peer (ReserveHeaders hands them out in ascending order)
+	owner := map[uint64]string{}
+	for i := range cfg.RangeEnds {
+		id := fmt.Sprintf("s%d", i)
+		if req := q.ReserveHeaders(newPeerConnection(id, nil, nil), 1); req != nil {
+			owner[req.From] = id
+		}
+	}
+	for step, r := range cfg.Order {
+		from := cfg.From + uint64(starts[r])
+		hs := cfg.Headers[starts[r] : cfg.RangeEnds[r]+1]
+		id := owner[from]
+		if r < len(cfg.BadFirst) && cfg.BadFirst[r] && len(hs) > 1 {
+			n, err := q.DeliverHeaders(id, hs[:len(hs)-1], ch) // one short: rejected, range goes back to the pool
+			res.Accepted = append(res.Accepted, n)
+			res.Errs = append(res.Errs, fmt.Sprint(err))
+			id = fmt.Sprintf("t%d", r)
+			if req := q.ReserveHeaders(newPeerConnection(id, nil, nil), 1); req == nil || req.From != from {
+				res.Errs = append(res.Errs, "re-reservation of the rejected range failed")
+			}
+		}
+		n, err := q.DeliverHeaders(id, hs, ch)
+		res.Accepted = append(res.Accepted, n)
+		res.Errs = append(res.Errs, fmt.Sprint(err))
+		if step < len(cfg.ReadAfter) {
+			take(cfg.ReadAfter[step])
+		}
+	}
+	// fillHeaderSkeleton: when the fill is over the rest is taken from RetrieveHeaders; the processor first drains its channel
+	take(1)
+	res.Filled, res.Proced = q.RetrieveHeaders()
 	return res
 }
